@@ -258,6 +258,8 @@ func checkC09(c *Ctx) {
 	checkDrainKeepsAccepted(c, "R11")
 	c.Rule("R12", "a goroutine started in a loop gets that iteration's values (shared with C05.R7): stopping the components of a table concurrently must not capture the loop variable - all goroutines would stop the last one and the others would never be stopped")
 	checkLoopGoroutineCapture(c, "R12")
+	c.Rule("R13", "a field that holds a running component (Start/Stop) is overwritten only when it is nil or after the old component was stopped")
+	checkComponentFieldNotOrphaned(c, "R13")
 }
 
 func checkListener(c *Ctx, ce *chanEngine) {
@@ -1721,4 +1723,101 @@ func snapshotUnderLock(le *lockEngine, mu *types.Var, isTableMap func(types.Type
 		}
 	})
 	return okAll && nret > 0
+}
+
+// checkComponentFieldNotOrphaned (C09.R13): a processor's Stop stops the components its fields point to. A field that
+// holds a running component (it has Start and Stop methods: the health monitor) may only be overwritten when it is nil
+// or after the old component was stopped - otherwise the old one keeps running after Stop, with nobody left who could
+// stop it.
+func checkComponentFieldNotOrphaned(c *Ctx, rule string) {
+	p := c.P
+	n := 0
+	for _, rel := range []string{"proc/tcp", "proc/redis"} {
+		for _, fn := range p.FuncsIn(rel) {
+			if p.isTestFn(fn) {
+				continue
+			}
+			eachInstr(fn, func(b *ssa.BasicBlock, _ int, in ssa.Instruction) {
+				st, ok := in.(*ssa.Store)
+				if !ok {
+					return
+				}
+				f, base := fieldAddr(st.Addr)
+				if f == nil || isFreshAlloc(base) || isNilConst(st.Val) {
+					return
+				}
+				pt, ok := f.Type().(*types.Pointer)
+				if !ok {
+					return
+				}
+				ms := types.NewMethodSet(pt)
+				hasStart, hasStop := false, false
+				for i := 0; i < ms.Len(); i++ {
+					switch ms.At(i).Obj().Name() {
+					case "Start":
+						hasStart = true
+					case "Stop":
+						hasStop = true
+					}
+				}
+				nt := namedOf(pt.Elem())
+				if !hasStart || !hasStop || nt == nil || nt.Obj().Pkg() == nil || !strings.HasPrefix(nt.Obj().Pkg().Path(), modPath) {
+					return
+				}
+				// the owner is itself a component that is stopped (it has a Stop method), not a one-shot result slot
+				ownerStops := false
+				if ot := namedOf(deref(base.Type())); ot != nil {
+					oms := types.NewMethodSet(types.NewPointer(ot))
+					for i := 0; i < oms.Len(); i++ {
+						if oms.At(i).Obj().Name() == "Stop" {
+							ownerStops = true
+						}
+					}
+				}
+				if !ownerStops {
+					return
+				}
+				n++
+				site := fmt.Sprintf("%s store#%d into component field %s.%s", fnKey(fn), n, ownerOf(p, f), f.Name())
+				// dominated by the nil side of a test of the same field ...
+				okStore := false
+				for _, d := range fn.Blocks {
+					iff, isIf := d.Instrs[len(d.Instrs)-1].(*ssa.If)
+					if !isIf {
+						continue
+					}
+					bo, isBo := iff.Cond.(*ssa.BinOp)
+					if !isBo || (bo.Op != token.EQL && bo.Op != token.NEQ) || !isNilConst(bo.Y) {
+						continue
+					}
+					if f2, _ := loadedField(bo.X); f2 != f {
+						continue
+					}
+					k := 0
+					if bo.Op == token.NEQ {
+						k = 1
+					}
+					if sb := d.Succs[k]; len(sb.Preds) == 1 && (sb == b || sb.Dominates(b)) {
+						okStore = true
+					}
+				}
+				// ... or preceded by Stop on the old value
+				eachInstr(fn, func(_ *ssa.BasicBlock, _ int, x ssa.Instruction) {
+					cc := callOf(x)
+					if cc == nil || len(cc.Args) == 0 {
+						return
+					}
+					if g := calleeFn(cc); g != nil && g.Name() == "Stop" {
+						if f2, _ := loadedField(cc.Args[0]); f2 == f && instrDominates(x, in) {
+							okStore = true
+						}
+					}
+				})
+				c.Check(okStore, rule, site, st.Pos(), "the field is nil here, or the old component was stopped first", "a field that holds a running component is overwritten while it may point to one that is running: the old component is never stopped - Stop only reaches the new one, so the old one's goroutine outlives the processor (a health monitor keeps probing the stopped service's backends and flipping host health)")
+			})
+		}
+	}
+	if n == 0 {
+		c.OK(rule, "no component field is overwritten outside constructors", token.NoPos, "")
+	}
 }
